@@ -149,11 +149,64 @@ func c10SpecialMAC() (o fw.Outcome) {
 	return
 }
 
+// c10CoincidingMAC: the second pre-computed vector (found by one search over 2^32 values of a 5G-TMSI). The message a
+// conformant AMF protects with COUNT 0x000100 - the first one after the 8-bit sequence number wrapped - carries a NAS-MAC
+// that ALSO verifies under COUNT 0x000000. A receiver that lets a trial integrity check decide whether the overflow
+// counter moves keeps the old value here; the wrap rule (sequence number went backwards) does not.
+func c10CoincidingMAC() (o fw.Outcome) {
+	kInt, kEnc := unhex("5a0f1c3e7b2d4968a1b0c9d8e7f60514"), unhex("c3a5e1f2079b8d6412fe34ab56cd7890")
+	cuc := append([]byte{0x7e, 0x00, 0x54, 0x77, 0x00, 0x0b, 0xf2, 0x02, 0xf8, 0x39, 0xca, 0xfe, 0x00}, unhex("5700d286")...)
+	o.Input = fmt.Sprintf("NIA2/NEA2 kint=%x kenc=%x: 255 CONFIGURATION UPDATE COMMANDs (COUNT 1..255), one assigning 5G-TMSI 5700d286 at COUNT 0x100 (its NAS-MAC b49c57fc verifies under COUNT 0 as well), three more", kInt, kEnc)
+	o.Digest, o.Nontrivial = fw.HashS("coinciding-mac"), true
+	o.Tag("mac-coincides-under-stale-overflow")
+	ue := tglib.NewRanUeContext("imsi-208930000000003", 1, 2, 2)
+	copy(ue.KnasInt[:], kInt)
+	copy(ue.KnasEnc[:], kEnc)
+	for count := 1; count <= 0x103; count++ {
+		plain := []byte{0x7e, 0x00, 0x54}
+		if count == 0x100 {
+			plain = cuc
+		}
+		wire, err := sec.ProtectNAS(2, 2, kInt, kEnc, uint32(count), 1, 1, 2, true, plain)
+		if err != nil {
+			o.Inconcl("reference protect: %v", err)
+			return
+		}
+		if count == 0x100 {
+			mac, merr := sec.NIA(2, kInt, 0, 1, 1, wire[6:]) // the same sequence number and ciphertext under the stale COUNT 0
+			if merr != nil || !bytes.Equal(mac, wire[2:6]) {
+				o.Inconcl("the stored vector no longer coincides under the reference (COUNT 0x100: %x, COUNT 0: %x, %v)", wire[2:6], mac, merr)
+				return
+			}
+		}
+		got, err := tglib.NASDecode(ue, 2, append([]byte(nil), wire...))
+		if err != nil || got == nil {
+			o.Fail("not-recovered", "message at COUNT %#x (NAS-MAC %x) is not recovered: %v", count, wire[2:6], err)
+			return
+		}
+		back, err := got.PlainNasEncode()
+		if err != nil || !bytes.Equal(back, plain) {
+			o.Fail("not-recovered", "message at COUNT %#x (NAS-MAC %x) is recovered as %x, the AMF protected %x", count, wire[2:6], back, plain)
+			return
+		}
+		if ue.DLCount.Get() != uint32(count) {
+			o.Fail("dl-count", "after the message at COUNT %#x the UE's downlink COUNT is %#x", count, ue.DLCount.Get())
+			return
+		}
+		o.Count("messages", 1)
+	}
+	o.Count("special_mac_vectors", 1)
+	return
+}
+
 func unhex(s string) []byte { b, _ := hex.DecodeString(s); return b }
 
 func runC10(c *fw.Case) (o fw.Outcome) {
 	if c.Idx == 0 {
 		return c10SpecialMAC()
+	}
+	if c.Idx == 1 {
+		return c10CoincidingMAC()
 	}
 	r := c.R
 	iAlg := uint8(1 + c.Idx%2)
